@@ -117,7 +117,12 @@ def gen_tables():
     # the guards of the front-end create functions (name / type check, duplicate query, order): Props/C08Guards.lean
     out7 = os.path.join(LEAN, 'NixModel', 'Gen', 'CreateGuards.lean')
     rc7, o7 = sh([sys.executable, os.path.join(VERIF, 'gen', 'extract_createguards.py'), REPO, out7])
-    return rc7 == 0, o + o2 + o3 + o4 + o5 + o6 + o7
+    if rc7 != 0:
+        return False, o + o2 + o3 + o4 + o5 + o6 + o7
+    # which unit predicate every front-end function calls: Props/C13UnitChecks.lean
+    out8 = os.path.join(LEAN, 'NixModel', 'Gen', 'UnitChecks.lean')
+    rc8, o8 = sh([sys.executable, os.path.join(VERIF, 'gen', 'extract_unitchecks.py'), REPO, out8])
+    return rc8 == 0, o + o2 + o3 + o4 + o5 + o6 + o7 + o8
 
 def lake(target):
     env = dict(os.environ)
